@@ -646,11 +646,13 @@ PROPS["C15"]["claim"] += (" END TO END: GM.ConvertH.convertH true (convertCore +
     "Close functions, generateAutoHeadingID, the per-parse id table, SetAttribute, renderHeading/RenderAttributes; tied by component `converth` on whole "
     "documents, HTML byte for byte) - for EVERY byte string, unconditionally: the attributes on headings are exactly the generated ids, non-empty, over "
     "[a-z0-9-], distinct per node, exactly Ids.run of the Close-order texts (e2e_heading_ids_table_fed_in_close_order), and the option leaves the block "
-    "phase unchanged (e2e_converth_block_phase_projects, e2e_converth_off_is_core, e2e_converth_never_loops); under the decidable driver hypotheses "
-    "headingsClosedOK / headingsOnceOK (every Heading of the final tree was handed to Close, once; evaluated on every tie case, never false; stated as "
-    "HeadingsAlwaysClosed / HeadingsAlwaysOnce, not proved): every heading has one id (e2e_every_heading_has_id), all ids pairwise distinct "
-    "(e2e_heading_ids_pairwise_distinct), and the literal start tag <hN id=\"v\"> is a contiguous part of the HTML (e2e_heading_ids_rendered).")
-PROPS["C15"]["explanation"] = PROPS["C15"]["explanation"].replace("Presence", "Presence (a theorem of the composed model under headingsClosedOK, and independently checked by the oracle of `converth`)", 1)
+    "phase unchanged (e2e_converth_block_phase_projects, e2e_converth_off_is_core, e2e_converth_never_loops); and - since round 2 "
+    "UNCONDITIONALLY, the close discipline of the block driver being proved for every byte string (tree well-formedness of the store, every Heading handed "
+    "to Close exactly once, empty open-block stack at the end: e2e_headings_always_closed, e2e_headings_always_once, e2e_block_phase_close_discipline) - "
+    "every heading has exactly one id (e2e_every_heading_has_id), all ids pairwise distinct (e2e_heading_ids_pairwise_distinct), non-empty, and the literal "
+    "start tag <hN id=\"v\"> is a contiguous part of the HTML (e2e_heading_ids_rendered); e2e_c15_end_to_end collects it: convertH true = ok html gives "
+    "html = render t with duplicate-free attribute lists id = v, v non-empty over [a-z0-9-], on every heading the renderer visits.")
+PROPS["C15"]["explanation"] = PROPS["C15"]["explanation"].replace("Presence", "Presence (a theorem of the composed model for every byte string, and independently checked by the oracle of `converth`)", 1)
 
 # ---- session 4, packages tnopanic / wf0 / consts (notes/status_tnopanic.md, status_wf0.md, status_consts.md) ----
 PROPS["C01"]["claim"] += (" Block phase WITH the link-reference transformer (GM.Props.ConvertNP, re-exported): the transformer's scan is TOTAL (no Go panic, "
